@@ -126,4 +126,43 @@ def checkRemaining (remBlocks bytePos dlen : Nat) : Outcome Unit :=
       if blocksOf (dlen - rem) > remBlocks then .panic else .ok ()
     else .ok ()
 
+/-! ### store-passing statements (third review)
+
+The `…Raw` models above return the caller's buffers on `Err` BY DEFINITION (`wrapOpened`, `pullRawWith`): a reordering of
+a write in the Rust in front of an early `return Err` is invisible to them.  `Stmt σ α` is a statement of a function that
+writes through its `&mut` arguments: it runs on the current store `σ` (everything the function can write to) and returns
+a value — or `Err` / panic — TOGETHER WITH THE STORE AS IT IS AT THAT POINT.  An `Err` after a write returns the written
+store.  "A failed call leaves the caller's data untouched" is then a theorem about the ORDER of the statements. -/
+
+/-- a statement over the store `σ` -/
+def Stmt (σ α : Type) : Type := σ → Outcome α × σ
+
+namespace Stmt
+variable {σ α β : Type}
+
+/-- run a statement on a store -/
+def run (x : Stmt σ α) (μ : σ) : Outcome α × σ := x μ
+
+/-- `x; f`: `Err` (`return Err(..)` / `?`) and panic end the function with the store reached so far -/
+def seq (x : Stmt σ α) (f : α → Stmt σ β) : Stmt σ β := fun μ =>
+  match x μ with
+  | (.ok a, μ') => f a μ'
+  | (.err, μ') => (.err, μ')
+  | (.panic, μ') => (.panic, μ')
+
+instance : Monad (Stmt σ) where
+  pure a := fun μ => (.ok a, μ)
+  bind := seq
+
+/-- an expression over locals and `&` arguments only (may `return Err` or panic; writes nothing) -/
+def eval (x : Outcome α) : Stmt σ α := fun μ => (x, μ)
+
+/-- read the store (`message.len()`, `*tag`, `state.nonce`, …) -/
+def read : Stmt σ σ := fun μ => (.ok μ, μ)
+
+/-- an assignment through a `&mut` argument -/
+def write (f : σ → σ) : Stmt σ Unit := fun μ => (.ok (), f μ)
+
+end Stmt
+
 end DryocVerif.Model.Raw
